@@ -310,7 +310,8 @@ def analyse_flush_hash(ctx, F, fn):
         return None
 
     def is_eq_call(p):
-        return p.endswith("::eq") and ("PartialEq" in p)
+        # == / != on suits: which polarity guards the addition is decided from the edges below (norm_rel)
+        return (p.endswith("::eq") or p.endswith("::ne")) and ("PartialEq" in p)
 
     def allowed(p, t):
         return (L.is_next_call(t) or p in WHOLE_ARRAY_ITER_CALLS or card_getter(F, p, SUIT)
